@@ -218,16 +218,19 @@ def _real_worker(job):
     case, seeds, book = job
     vlog = logging.getLogger('vermouth')
     vlog.setLevel(logging.ERROR)
-    out = []
+    hists = []
     for seed in seeds:
         events, types, names, ffn = real_history(case, seed)
-        states, gen, verdicts, partial = c12.judge_batch([events], book, types=types, edge_types=[t for t in types if t in EDGE_TYPES],
-                                                         cells=[1, 2, 3, 4], blocks=[4], names=names, sysff=ffn, timeout=1800)
-        s = c12.summarise([events], verdicts, partial)
-        s.update(states=states, generated=gen)
+        hists.append(events)
+    states, gen, verdicts, partial = c12.judge_batch(hists, book, types=types, edge_types=[t for t in types if t in EDGE_TYPES],
+                                                     cells=[1, 2, 3, 4], blocks=[4], names=names, sysff=ffn, timeout=3000)
+    out = []
+    for ti, (seed, events) in enumerate(zip(seeds, hists), 1):
+        s = c12.summarise([events], {1: verdicts[ti]} if ti in verdicts else {}, partial)
+        s.update(states=states if ti == 1 else 0, generated=gen if ti == 1 else 0)
         for r in s['rejected']:
             r['real'] = {'case': list(case), 'seed': seed}
-        s['atoms'] = max(len(p[1]['nodes']) for e in events for p in e['post'])
+        s['atoms'] = max(len(p[1]['nodes']) for e in events for p in e.get('post', ()))
         if seed == seeds[0]:
             s['sample'] = [{k: (v if k != 'ks' or len(v) < 12 else v[:12] + ['...']) for k, v in e.items() if k not in ('post', 'sys', 'parts')}
                            for e in events[:12]]
